@@ -156,7 +156,7 @@ def to_json_of(flags, ih, ie):
 
 
 def gen_filter(rng, tier):
-    n = {"quick": 260, "thorough": 10000, "search": 400}[tier]
+    n = {"quick": 6000, "thorough": 100000, "search": 3000}[tier]
     out = []
     wss = sorted(WS)
     # fixed part: all 26 single toggles by each route, the gate, the master switch
@@ -209,8 +209,12 @@ def shrink_case(c):
     """drop changes, drop patterns, switch flags on"""
     f = c.split(" ")[:6]
     ws, root, files, js, c0, chs = f
+    count = [0]
     def emit(js=js, c0=c0, chs=chs):
-        return " ".join([ws, root, files, js, c0, chs])
+        # every candidate gets its own directory (candidates are evaluated in parallel)
+        count[0] += 1
+        r = bytes.fromhex(root).decode("latin1").split("~")[0] + "~%d" % count[0]
+        return " ".join([ws, hx(r), files, js, c0, chs])
     if chs != "-":
         l = chs.split("|")
         for i in range(len(l)):
